@@ -393,6 +393,31 @@ def small_strings(alphabet, max_len):
             yield "".join(t)
 
 
+def searchable(c: Contract, exhaustive) -> bool:
+    """Can the bounded native search produce meaningful inputs for this contract?  Record / opaque / callable
+    parameters need a generator written for them (EXHAUSTIVE) or a builder; without one the contract is an
+    abstraction used by the prover only and is not searched."""
+    if c.no_native or not c.module.startswith("pyxform"):
+        return False
+    if exhaustive is not None:
+        return True
+
+    def plain(k):
+        if isinstance(k, (KObj, KOpaque, KFn)):
+            return k.cls == "Writer" if isinstance(k, KObj) else False
+        if isinstance(k, (KList, KSet, KOpt)):
+            return plain(k.elem)
+        if isinstance(k, KDict):
+            return plain(k.key) and plain(k.val)
+        if isinstance(k, KTuple):
+            return all(plain(i) for i in k.items)
+        if isinstance(k, KUnion):
+            return all(plain(i) for i in k.alts)
+        return True
+
+    return all(plain(k) for _, k, _ in c.params)
+
+
 def search(nc: NativeContract, seed: int, budget: int, builders=None, exhaustive=None, max_len=6):
     """Bounded search for a contract violation. Returns (witness|None, stats)."""
     c = nc.c
